@@ -492,7 +492,7 @@ Proof.
        destruct v; try discriminate; reflexivity.
   - right. destruct R as (_ & _ & ws & H & _). apply ListH_islist in H. rewrite Forall_forall in H.
     destruct (H _ Hv) as (l & ->). reflexivity.
-  - right. apply rep_record in R. destruct R as (_ & _ & _ & _ & I & _). rewrite forallb_forall in I. specialize (I _ Hv).
+  - right. apply rep_record in R. destruct R as (_ & _ & I & _). rewrite forallb_forall in I. specialize (I _ Hv).
     destruct v; try discriminate. cbn [isrec] in I. apply andb_true_iff in I. destruct I as [I _].
     apply oname_eqb_eq in I. subst. reflexivity.
   - right. apply rep_tuple in R. destruct R as (_ & _ & I & _). rewrite forallb_forall in I. specialize (I _ Hv).
@@ -662,7 +662,7 @@ Proof.
     pose proof (ListH_islist _ _ _ H) as IL. rewrite Forall_forall in IL. destruct (IL _ Hv) as (l & ->).
     rewrite coerce_list. f_equal. f_equal. f_equal. unfold positions. rewrite cL_fold, (ListH_fold _ _ _ H). reflexivity.
   - (* record *)
-    apply rep_record in R. destruct R as (-> & -> & N1 & N2 & A & -> & RC). destruct (rcols_F2 _ _ _ RC) as [EL F2].
+    apply rep_record in R. destruct R as (-> & -> & A & -> & RC). destruct (rcols_F2 _ _ _ RC) as [EL F2].
     cbn [snapshot]. rewrite zlen_not_m1.
     destruct (snaps_gen cs _ H F2) as (snaps & E1 & E2). rewrite E1. cbn [bind].
     replace (length (keys_of vs) <? length cs)%nat with false by (symmetry; apply Nat.ltb_ge; lia).
